@@ -16,7 +16,7 @@ PROP = dict(
     technique="TLA+ spec Encoding.tla: abstract traces (numbers without a Go type) x every encoding (arrival order, per span an ingestion path incl. peer forwarding, per number a wire type that carries it exactly) x a class of sampler configurations, enumerated exhaustively by TLC together with a model of the decoders (Go type per path and wire type) and of each consumer's view of a decoded number; every encoding is pushed byte for byte through the real request handlers / decoders / peer transmission of real Routers and decided by the real sampler, and its outcome compared with the outcome of the reference encoding of the same abstract trace (function-vector replay, B3)",
     design_ref="DESIGN.md §5 C09",
     level_text="TLC enumerates, for every sampler configuration of the class (rules with untyped / int / float / string / bool comparisons, in / not-in, starts-with / contains / does-not-contain / matches, exists / not-exists on Field, Fields and root. fields with scope trace and span, dynamic samplers keyed on plain and root. fields with and without UseTraceLength, rules with a downstream dynamic sampler) and every abstract trace of the bound, EVERY encoding: all span permutations x per span {JSON /1/events, JSON /1/batch, msgpack /1/events, msgpack /1/batch, OTLP/HTTP protobuf} x {received directly, forwarded by a peer} x per number every wire type that carries it exactly (msgpack fixint, int8-64, uint8-64, float32, float64; three JSON literal forms; OTLP int_value / double_value), and checks on the model that each is an encoding of the same trace (CarriesSame), that the reference is one of them, that the consumers' views are encoding-independent in the ideal model (EncodingIndependent) and that the code's known deviations are confined to uint64 / float32 values and integers >= 1e6 decoded as floats (DeviationsConfined). Binding: each encoding is written down byte by byte, sent through the mux of a real incoming Router (forwarded spans additionally through a real DirectTransmission and a real peer Router over loopback HTTP), the collected spans are assembled as the collector does and GetSampleRate of the sampler built by SamplerFactory from the loaded rules file must return the same (rate, keep, reason, sample key) as for the reference encoding (msgpack batch, int64 / float64, trace order) of the same abstract trace.",
-    level_note="The outcome is uninterpreted in the specification (the meaning of rules and keys is C08 / C11): the oracle is equality with the reference encoding's real outcome, which detects any two encodings that disagree. Bounded-exhaustive: numbers 5, -3, 2.5, 1e6 (thorough also 200, 0.1, 70000, 1, 0), one string, <= 3 spans, fields f and g; about 27k encodings of 474 (configuration, trace) vectors in the quick tier, about 636k of 5754 in the thorough tier; widths are exhaustive for one-span traces, one width per Go type for 2-3 spans; 3-span traces only in the thorough tier with 4 paths. keep is compared only where it is deterministic (drop rules, rate <= 1). Not covered: OTLP/gRPC and OTLP JSON, compressed bodies, msgpack bin / ext / nested values, numbers beyond 2^31, floats below 1e-4 (where %v also switches to exponent form), NaN / infinities. Go types predicted by the decoder model are not asserted (only used to name known deviations).",
+    level_note="The outcome is uninterpreted in the specification (the meaning of rules and keys is C08 / C11): the oracle is equality with the reference encoding's real outcome, which detects any two encodings that disagree. Bounded-exhaustive: numbers 5, -3, 2.5, 1e6 (thorough also 200, 0.1, 70000, 1, 0), one string, <= 3 spans, fields f and g; rule Values of every class (fractional 2.5 / -2.5, whole number written as a float, numeric string, integers; thorough also 0.5, 2, -2, -2.0) under all six comparison operators without Datatype and with Datatype int / float against field values at the truncation boundary of those thresholds (2, 3, -2; thorough also -3, 0, 2.5, 1) in every numeric wire type; about 31k encodings of 690 (configuration, trace) vectors in the quick tier, about 686k of 6762 in the thorough tier; widths are exhaustive for one-span traces, one width per Go type for 2-3 spans; 3-span traces only in the thorough tier with 4 paths. keep is compared only where it is deterministic (drop rules, rate <= 1). Not covered: OTLP/gRPC and OTLP JSON, compressed bodies, msgpack bin / ext / nested values, numbers beyond 2^31, floats below 1e-4 (where %v also switches to exponent form), NaN / infinities. Go types predicted by the decoder model are not asserted (only used to name known deviations).",
     assumptions=["the hand-written msgpack / JSON / OTLP encoders of the harness are faithful to the formats",
                  "dynsampler-go returns its initial rate for every key while no ClearFrequency interval elapses",
                  "bounded abstract value domain, <= 3 spans"],
